@@ -166,7 +166,7 @@ pub fn eval_prop(c: &PropCase) -> CaseOut {
                     match r {
                         Ok(written) => match mr::decode_client(&written) {
                             Ok((CPacket::Connect(cp), _)) => {
-                                if w != Want::Reject && cp.will.as_ref().map(|x| x.props.clone()) != Some(props_ref.clone()) {
+                                if w != Want::Reject && !cp.will.as_ref().is_some_and(|x| mr::props_equiv(&x.props, &props_ref)) {
                                     flag(&mut viol, "property-not-sent", &pname, format!("CONNECT will properties {:?}, configured {:?}", cp.will.map(|x| x.props), props_ref));
                                 }
                             }
@@ -258,7 +258,7 @@ pub fn eval_prop(c: &PropCase) -> CaseOut {
                         CPacket::Subscribe { props, .. } | CPacket::Unsubscribe { props, .. } | CPacket::Disconnect { props, .. } => props,
                         _ => vec![],
                     });
-                    if w == Want::Accept && sent != Some(props_ref.clone()) {
+                    if w == Want::Accept && !sent.as_ref().is_some_and(|x| mr::props_equiv(x, &props_ref)) {
                         flag(&mut viol, "property-not-sent", &pname, format!("{} accepted {:?} but the wire carries {:?} ({})", ctxn, props_ref, sent, mr::hex(&written)));
                     }
                 }
